@@ -102,6 +102,10 @@ class NestedParent(WrappingQuery):
 
         return self.__class__(p, q)
 
+    def _rewrap(self, child):
+        return self.__class__(self.parents, child, self.per_parent_limit,
+                              self.score_fn)
+
     def requires(self):
         return self.child.requires()
 
@@ -266,6 +270,9 @@ class NestedChildren(WrappingQuery):
         self.parents = parents
         self.child = subq
         self.boost = boost
+
+    def _rewrap(self, child):
+        return self.__class__(self.parents, child, boost=self.boost)
 
     def matcher(self, searcher, context=None):
         bits = searcher._filter_to_comb(self.parents)
